@@ -33,6 +33,7 @@ def check(repo, tier="quick"):
     res.rule("C14.e", "low delay: the target is 8 * slice_bytes(state, sx, sy) - 7 - intlog2(8 * slice_bytes(state, sx, sy) - 7), the decoder's bits left after qindex and the length field; slice_y_length is the bit count of the luma coefficients")
     res.rule("C14.f", "calculate_coeffs_bits adds signed_exp_golomb_length of every coefficient up to the last non-zero one (trailing zeros cost nothing in a bounded block)")
 
+    res.rule("C14.g", "the requested minimum reaches the search: in the encoder, every call from a function with a minimum_qindex (minimum_slice_size_scaler) parameter to a function that has a parameter of that name binds it to the caller's own value; make_sequence pairs pictures with their minima positionally; hidden-state and bug-pattern rules")
     m = repo.mod(PIC)
     for f in ("quantize_to_fit", "quantize_coeffs", "calculate_coeffs_bits", "calculate_hq_length_field", "make_hq_slice", "make_ld_slice", "make_transform_data_hq_lossy", "make_transform_data_ld_lossy", "get_safe_lossy_hq_slice_size_scaler"):
         if f not in m.funcs:
@@ -43,6 +44,8 @@ def check(repo, tier="quick"):
     rule_d(res, m)
     rule_e(repo, res, m)
     rule_f(res, m)
+    rule_g(repo, res)
+    res.floor("C14.g", 12)
     res.floor("C14.a", 4)
     res.floor("C14.b", 2)
     res.floor("C14.c", 4)
@@ -291,3 +294,52 @@ def rule_f(res, m):
                 if a.name == "signed_exp_golomb_length":
                     tgt = n.module
     res.check(tgt is not None and tgt.endswith("bitstream.exp_golomb"), "C14.f", "bits:length-function-is-the-serialiser's", where, "signed_exp_golomb_length must be the function of vc2_conformance.bitstream.exp_golomb (the one C20.d ties to write_sint)", by="imported from bitstream.exp_golomb")
+
+
+FORWARDED = ("minimum_qindex", "minimum_slice_size_scaler")
+
+
+def rule_g(repo, res):
+    from .. import globals_state, lints
+
+    mods = ["encoder.pictures", "encoder.sequence"]
+    for name in mods:
+        m = repo.mod(name)
+        for fn in [f for f in ast.walk(m.tree) if isinstance(f, ast.FunctionDef)]:
+            mine = set(a.arg for a in fn.args.args + fn.args.kwonlyargs)
+            for c in ast.walk(fn):
+                if not (isinstance(c, ast.Call) and isinstance(c.func, ast.Name)):
+                    continue
+                tgt = repo.resolve(m.name, c.func.id)
+                if tgt is None or getattr(tgt, "kind", None) != "func" or tgt.node is None:
+                    continue
+                pos = [a.arg for a in tgt.node.args.args]
+                for p in FORWARDED:
+                    if p not in pos or p not in mine:
+                        continue
+                    val = None
+                    i = pos.index(p)
+                    if i < len(c.args) and not any(isinstance(a, ast.Starred) for a in c.args[: i + 1]):
+                        val = c.args[i]
+                    for k in c.keywords:
+                        if k.arg == p:
+                            val = k.value
+                    ok = isinstance(val, ast.Name) and val.id == p
+                    res.check(ok, "C14.g", "%s->%s:%s" % (fn.name, tgt.name, p), "%s:%s" % (m.rel, fn.name), "the call of %s at line %d must pass the caller's own %s (found %s)" % (tgt.name, c.lineno, p, short(val, 40) if val is not None else "nothing: the callee's default is used"), by="%s=%s" % (p, p))
+    # make_sequence: per-picture minima
+    m = repo.mod("encoder.sequence")
+    fn = m.funcs.get("make_sequence")
+    if fn is None:
+        raise AnalysisError("anchor vanished: encoder.sequence.make_sequence")
+    where = "%s:make_sequence" % m.rel
+    n, e = pfind("for X_pic, X_q in zip(pictures, X_qs):\n    STMTS_", fn)
+    ok = False
+    if n is not None:
+        calls = [c for c in ast.walk(n) if isinstance(c, ast.Call) and dotted(c.func) == "make_picture_data_units"]
+        ok = len(calls) == 1 and len(calls[0].args) >= 3 and dotted(calls[0].args[1]) == e["X_pic"] and dotted(calls[0].args[2]) == e["X_q"]
+        src, _ = pfind("%s = kwargs.pop('minimum_qindex', 0)" % e["X_qs"], fn)
+        rep, _ = pfind("if not isinstance(%s, list):\n    %s = repeat(%s)" % (e["X_qs"], e["X_qs"], e["X_qs"]), fn)
+        ok = ok and src is not None and rep is not None
+    res.check(ok, "C14.g", "make_sequence:per-picture-minimum", where, "make_sequence must take minimum_qindex from its keyword arguments, repeat a scalar for every picture, pair the list with the pictures positionally and pass each picture its own minimum", by="zip(pictures, minimum_qindices) -> make_picture_data_units(.., picture, minimum_qindex, ..)")
+    globals_state.rule(repo, res, "C14.g", mods, what="the quantisation index chosen for one slice")
+    lints.rule(repo, res, "C14.g", mods)
